@@ -57,11 +57,17 @@ SubModel(A, P) == \A d \in DOMAIN P :
     /\ DOMAIN P[d].n \subseteq DOMAIN A.n
     /\ \A x \in DOMAIN P[d].n : [P[d].n[x] EXCEPT !.deleg = <<>>] = [A.n[x] EXCEPT !.deleg = <<>>]
     /\ P[d].e = {ed \in A.e : ed.ends \subseteq DOMAIN P[d].n}
-InterfaceKeepsContext(A, P) == \A d \in DOMAIN P : \A c \in CPs(A, Annotated(A, d) \cup Stitch(A)) :
-    /\ Nbrs(A, c, "connects", "Link") \subseteq DOMAIN P[d].n
-    /\ \A l \in Nbrs(A, c, "connects", "Link") : Nbrs(A, l, "connects", "ConnectionPoint") \subseteq DOMAIN P[d].n
-    /\ \A s \in Nbrs(A, c, "connects", "NetworkService") :
-          s \in DOMAIN P[d].n /\ Nbrs(A, s, "has", "NetworkNode") \cup Nbrs(A, s, "has", "Component") \subseteq DOMAIN P[d].n
+InterfaceKeepsContext(A, P) == \A d \in DOMAIN P :
+    \* interfaces delegated to d (or stitching): their link and their peer across it are kept
+    /\ \A c \in CPs(A, Annotated(A, d) \cup Stitch(A)) :
+          /\ Nbrs(A, c, "connects", "Link") \subseteq DOMAIN P[d].n
+          /\ \A l \in Nbrs(A, c, "connects", "Link") : Nbrs(A, l, "connects", "ConnectionPoint") \subseteq DOMAIN P[d].n
+    \* those interfaces and the peers kept for them: the owning service and that service's owner are kept
+    /\ \A c \in CPs(A, Annotated(A, d) \cup Stitch(A)) \cup
+                 UNION {UNION {Nbrs(A, l, "connects", "ConnectionPoint") : l \in Nbrs(A, c0, "connects", "Link")} :
+                           c0 \in CPs(A, Annotated(A, d) \cup Stitch(A))} :
+          \A s \in Nbrs(A, c, "connects", "NetworkService") :
+             s \in DOMAIN P[d].n /\ Nbrs(A, s, "has", "NetworkNode") \cup Nbrs(A, s, "has", "Component") \subseteq DOMAIN P[d].n
 StitchEverywhere(A, P) == \A d \in DOMAIN P : Stitch(A) \subseteq DOMAIN P[d].n
 Clauses(A) == LET P == Partition(A) IN
     /\ DelegatedPresent(A, P) /\ NoForeignEntry(A, P) /\ SubModel(A, P) /\ InterfaceKeepsContext(A, P) /\ StitchEverywhere(A, P)
